@@ -186,3 +186,24 @@ package types
 //@ loop 0 invariant seen: 0 <= iter && iter <= len(ss)
 //@ loop 0 invariant acc: result == joinZ(ss, iter)
 //@ ensures exact: result == strsKey(ss)
+
+//@ func ValidateRequestContextUpdating
+//@ props C09
+//@ trusted
+//@ ensures err == NoErr ==> timeout >= 0 && repeatedTotal >= -1
+
+// ---------------------------------------------------------------- identifiers (C18); byte-level contracts are in the lemmas of layer K
+//@ func GenerateRequestID
+//@ props C18
+//@ theory coins keys bytes
+//@ ensures [C18] exact_layout: result == mkRID(requestContextID, requestContextBatchCounter, requestHeight, batchRequestIndex)
+
+//@ func GenerateRequestContextID
+//@ props C18
+//@ theory coins keys bytes
+//@ ensures [C18] exact_layout: result == mkCtxID(txHash, msgIndex)
+
+//@ func ValidateRequest
+//@ props C10 C09
+//@ trusted
+//@ ensures err == NoErr ==> timeout > 0 && len(providers) > 0 && (repeated ==> (repeatedFrequency == 0 || repeatedFrequency >= timeout) && (repeatedTotal == -1 || repeatedTotal >= 1))
